@@ -9,10 +9,10 @@ cd "$W"
 for d in $STAGE/C*/[ABC]*; do
   [ -f "$d/patch.diff" ] || continue
   id=$(basename $(dirname $d)); x=$(basename $d | cut -c1)
-  git checkout -q -- . ; git clean -fdq
+  git reset -q --hard; git clean -fdq
   mkdir -p _out/X; cp "$d/demo.py" _out/X/demo.py
   /venv/bin/python _out/X/demo.py > /dev/null 2>&1; c0=$?
-  if git apply "$d/patch.diff" 2>/dev/null; then a=yes; else a=no; fi
+  if git apply "$d/patch.diff" 2>/dev/null; then a=yes; elif git apply --3way "$d/patch.diff" 2>/dev/null; then git reset -q; a=3way; else a=no; fi
   /venv/bin/python _out/X/demo.py > /dev/null 2>&1; c1=$?
   echo "recheck tag=${PFX}${id}_$x head=$(git rev-parse --short HEAD) applied=$a demo_clean_exit=$c0 demo_mutant_exit=$c1"
 done
